@@ -225,7 +225,9 @@ def run(tier, seed, factor=1):
                 "against the Lean composition of the steps' tables; non-trivial = >=3 classes / >=1 object; distinct by config / (rule, form)")
     rnd = random.Random(seed * 1000003 + 7)
     N = common.scale(tier, 5, 6)
-    outs = specrun.pool_map(spec_worker, [(c, N) for c in speccheck.make_configs(rnd, common.scale(tier, 200, 2500) * factor)])
+    cfgs = speccheck.make_configs(rnd, common.scale(tier, 200, 2500) * factor)
+    cfgs += [specrun.revnames_config(rnd) for _ in range(max(24, len(cfgs) // 10))]  # children listing their statistics in another order
+    outs = specrun.pool_map(spec_worker, [(c, N) for c in cfgs])
     specrun.quiet()
     for o in outs:
         res.case(("cfg", repr(sorted(o["cfg"].items()))), nontrivial=o["nclasses"] >= 3)
